@@ -30,8 +30,7 @@ class Infeasible(PathCut):
     pass
 
 
-class Unsupported(Exception):
-    """construct outside the subset / missing contract: the function is out of reach, never silently skipped"""
+Unsupported = V.Unsupported
 
 
 class _Return(Exception):
@@ -197,6 +196,14 @@ def bit_and_const(x, c):
         else:
             bit += 1
     return simp(total)
+
+
+def is_opaque(v):
+    return isinstance(v, VObj) and bool(v.fields.get('opaque!'))
+
+
+def opaque_like(ctx, name):
+    return VObj(None, {'opaque!': True, 'bool!': ctx.fresh(f'truth({name})', z3.BoolSort()), 'isinstance!': lambda c: True}, name)
 
 
 def truthy(ctx, v):
@@ -442,9 +449,15 @@ class Interp:
                 hook(self, o, name, v, node)
             o.fields[name] = v
             return
+        if is_opaque(o):
+            o.fields[name] = v
+            return
         raise Unsupported(f'attribute store on {type(o).__name__} .{name} (line {node.lineno}): frame violation or unmodelled object')
 
     def iter_static(self, v, n=None):
+        if n is not None and is_opaque(v) and self.sweep_mode():
+            # tuple-unpacking of the unconstrained result of an assumed callee (arity assumed right)
+            return [opaque_like(self.ctx, f'{v.name}.{k}') for k in range(n)]
         if isinstance(v, (VTuple, VList)):
             return list(v.items)
         if isinstance(v, (tuple, list, dict, set, frozenset)):
@@ -615,6 +628,12 @@ class Interp:
         it = self.eval(s.iter, fr)
         if isinstance(it, VIterDone):
             it = it.seq
+        if is_opaque(it) and self.sweep_mode():
+            # iteration over the unconstrained result of an assumed callee: any number of unconstrained elements
+            ln = self.ctx.fresh(f'len({it.name})')
+            self.ctx.assume(ln >= 0)
+            nm = it.name
+            it = VSeq(ln, lambda i, _n=nm: opaque_like(self.ctx, f'{_n}[]'), nm)
         static = None
         if isinstance(it, (VTuple, VList, tuple, list)):
             static = self.iter_static(it)
@@ -763,6 +782,10 @@ class Interp:
         else:
             self.exec_block(s.orelse, fr)
 
+    def sweep_mode(self):
+        c = getattr(self, 'current_contract', None)
+        return bool(c is not None and getattr(c, 'opaque_calls', False))
+
     def seq_len(self, it):
         if isinstance(it, VSeq):
             return it.length
@@ -797,6 +820,11 @@ class Interp:
         if isinstance(cur, str) or isinstance(cur, VStr):
             return VStr(ctx.fresh(name), name)
         if cur is None:
+            if self.sweep_mode():
+                # sweep mode has no hand-written havoc: a name bound to None before the loop and assigned in it is, at the
+                # cut, None or some unconstrained value
+                c = ctx.fresh(name + '!set', B)
+                return VIte(c, VObj(None, {'opaque!': True, 'bool!': ctx.fresh(name + '!truth', B)}, name), None)
             return None
         if isinstance(cur, VSeq):
             ln = ctx.fresh(name + '!len')
@@ -804,6 +832,10 @@ class Interp:
             base = ctx.fresh(name + '!base')
             elem = cur.elem
             return VSeq(ln, lambda i, _e=elem, _b=base: _e(simp(_b + i)), name)
+        if isinstance(cur, VList) and self.sweep_mode():
+            ln = ctx.fresh(name + '!size')
+            ctx.assume(ln >= 0)
+            return VObj(None, {'bool!': simp(ln != 0), '__len__': ln, 'opaque!': True}, name)
         if isinstance(cur, VList):
             raise Unsupported(f'havoc of a static list {name}: declare it in the loop spec')
         if isinstance(cur, VObj):
@@ -1024,6 +1056,9 @@ class Interp:
             return VStr(ctx.fresh('str'), 'strop')
         if isinstance(a, (VList, VTuple)) and op is ast.Mult and isinstance(b, int):
             return type(a)(list(a.items) * b)
+        if (is_opaque(a) or is_opaque(b)) and self.sweep_mode():
+            # an operand is the unconstrained result of an assumed callee: so is the result (types assumed right)
+            return opaque_like(ctx, f'{op.__name__}@{getattr(node, "lineno", "?")}')
         if not (is_sym(a) or isinstance(a, (int, float))) or not (is_sym(b) or isinstance(b, (int, float))):
             raise Unsupported(f'operator {op.__name__} on {type(a).__name__}/{type(b).__name__} line {getattr(node, "lineno", "?")}')
         conc = not is_sym(a) and not is_sym(b)
@@ -1164,7 +1199,21 @@ class Interp:
             a, b = to_z3(a), to_z3(b)
         return simp({ast.Lt: a < b, ast.LtE: a <= b, ast.Gt: a > b, ast.GtE: a >= b}[op])
 
+    def opaque_cmp(self, kind, a, b):
+        """comparison involving the unconstrained result of an assumed callee: an unconstrained (memoised) boolean"""
+        o, c = (a, b) if is_opaque(a) else (b, a)
+        memo = o.fields.setdefault('cmp!', {})
+        try:
+            key = (kind, id(c) if isinstance(c, (VObj, VBytes, VTuple, VList)) else repr(c))
+        except Exception:
+            key = (kind, id(c))
+        if key not in memo:
+            memo[key] = self.ctx.fresh(f'{kind}({o.name})', z3.BoolSort())
+        return memo[key]
+
     def identical(self, a, b):
+        if (is_opaque(a) or is_opaque(b)) and a is not b:
+            return self.opaque_cmp('is', a, b)
         if a is None or b is None:
             if is_sym(a) or is_sym(b):
                 return False
@@ -1194,6 +1243,8 @@ class Interp:
         return a is b
 
     def equals(self, a, b, node):
+        if (is_opaque(a) or is_opaque(b)) and a is not b:
+            return self.opaque_cmp('eq', a, b)
         if isinstance(a, VBytes) and isinstance(b, (bytes, bytearray)):
             b = VBytes.lit(b)
         if isinstance(b, VBytes) and isinstance(a, (bytes, bytearray)):
@@ -1292,6 +1343,8 @@ class Interp:
                 return simp(z_or(*[to_z3(container.at(i)) == to_z3(item) for i in range(n)]))
         if isinstance(container, str) and isinstance(item, str):
             return item in container
+        if (is_opaque(container) or is_opaque(item)) and self.sweep_mode():
+            return self.ctx.fresh(f'in@{getattr(node, "lineno", "?")}', z3.BoolSort())
         raise Unsupported(f'`in` on {type(container).__name__} line {getattr(node, "lineno", "?")}')
 
     # ----------------------------------------------------------------- attribute / subscript
@@ -1484,6 +1537,8 @@ class Interp:
             return r
         if isinstance(o, VObj) and 'getitem!' in o.fields:
             return o.fields['getitem!'](self, o, k)
+        if is_opaque(o) and self.sweep_mode():
+            return opaque_like(self.ctx, f'{o.name}[]')
         raise Unsupported(f'subscript of {type(o).__name__} line {node.lineno}')
 
     def concrete_dict_get(self, d, k, default, raise_missing):
